@@ -1,6 +1,8 @@
 //! Reference models. Plain loops with indexing; nothing here calls memchr.
 
-use std::collections::VecDeque;
+#[allow(unused_imports)]
+use crate::prelude::*;
+use alloc::collections::VecDeque;
 
 #[inline]
 pub fn is_needle(b: u8, ndl: &[u8]) -> bool {
